@@ -481,7 +481,26 @@ func (tb *TB) phiBounds(s *dsys, ph *ssa.Phi) {
 		}
 		sys = append(sys, tb.edgeSystem(pred, k))
 	}
-	cands := append([]lin{{"0", 0}}, edges...)
+	// a merge at a loop header: bounds are proved by induction over the iterations — on a back
+	// edge the bound may be assumed for the value of the previous iteration; the candidates are
+	// then the start values only, which do not change while the loop runs
+	back := make([]bool, len(edges))
+	header := false
+	for i := range edges {
+		if blk.Dominates(blk.Preds[i]) {
+			back[i], header = true, true
+		}
+	}
+	cands := []lin{{"0", 0}}
+	for i, e := range edges {
+		if !header || !back[i] {
+			cands = append(cands, e)
+		}
+	}
+	with := func(s *dsys, x, y string, c int64) *dsys {
+		n := &dsys{cons: append(append([]dcons{}, s.cons...), dcons{x, y, c})}
+		return n
+	}
 	seen := map[lin]bool{}
 	for _, c := range cands {
 		if seen[c] || c.sym == self.sym {
@@ -490,11 +509,16 @@ func (tb *TB) phiBounds(s *dsys, ph *ssa.Phi) {
 		seen[c] = true
 		upper, lower := true, true
 		for i, e := range edges {
+			su, sl := sys[i], sys[i]
+			if back[i] {
+				su = with(sys[i], self.sym, c.sym, c.off-self.off) // hypothesis: self <= c
+				sl = with(sys[i], c.sym, self.sym, self.off-c.off) // hypothesis: self >= c
+			}
 			// e.sym + e.off <= c.sym + c.off
-			if !(e == c || sys[i].implied(e.sym, c.sym, c.off-e.off)) {
+			if !(e == c || su.implied(e.sym, c.sym, c.off-e.off)) {
 				upper = false
 			}
-			if !(e == c || sys[i].implied(c.sym, e.sym, e.off-c.off)) {
+			if !(e == c || sl.implied(c.sym, e.sym, e.off-c.off)) {
 				lower = false
 			}
 		}
